@@ -29,6 +29,10 @@ pub open spec fn lenient_kw_at(env: Seq<char>, i: int, kw: Seq<char>) -> bool {
         && forall|j: int| 0 <= j < kw.len() && i + j < env.len() ==> env[i + j] == kw[j])
 }
 
+/// some copula of the format occurs (leniently) in `e` at position i
+pub open spec fn copula_at_e(f: &NarseseFormat<&str>, e: Seq<char>, i: int) -> bool {
+    exists|k: int| 0 <= k < 13 && lenient_kw_at(e, i, #[trigger] copula_seq(f)[k])
+}
 pub open spec fn spaces_end(env: Seq<char>, sp: Seq<char>, i: int) -> int
     decreases env.len() - i
 {
@@ -66,7 +70,7 @@ impl<'a> ParseState<'a, &'a str> {
     }
     /// some copula of the format occurs in the environment at position i
     pub open spec fn copula_at(&self, i: int) -> bool {
-        exists|k: int| 0 <= k < 13 && lenient_kw_at(self.env@, i, #[trigger] copula_seq(self.format)[k])
+        copula_at_e(self.format, self.env@, i)
     }
     /// "maximal munch": an atom name ends only at the end of input, at a character that cannot
     /// be part of a name, or where a copula starts
@@ -206,34 +210,6 @@ pub open spec fn stmt_shape(k: int, t: Term, s: Term) -> bool {
     else if k == 11 { t matches Term::EquivalenceConcurrent(a, _) && *a == s }
     // retrospective equivalence: predictive equivalence with the operands swapped
     else { t matches Term::EquivalencePredictive(_, b) && *b == s }
-}
-/// order in which parse_compound tries the connecters (after rejecting the operator prefix)
-pub open spec fn compound_try_order(f: &NarseseFormat<&str>) -> Seq<Seq<char>> {
-    seq![
-        f.compound.connecter_conjunction@, f.compound.connecter_disjunction@, f.compound.connecter_negation@,
-        f.compound.connecter_conjunction_sequential@, f.compound.connecter_conjunction_parallel@,
-        f.compound.connecter_intersection_extension@, f.compound.connecter_intersection_intension@,
-        f.compound.connecter_difference_extension@, f.compound.connecter_difference_intension@,
-        f.compound.connecter_product@, f.compound.connecter_image_extension@, f.compound.connecter_image_intension@,
-    ]
-}
-pub open spec fn compound_kind(k: int, t: Term) -> bool {
-    if k == 0 { t is Conjunction } else if k == 1 { t is Disjunction } else if k == 2 { t is Negation }
-    else if k == 3 { t is ConjunctionSequential } else if k == 4 { t is ConjunctionParallel }
-    else if k == 5 { t is IntersectionExtension } else if k == 6 { t is IntersectionIntension }
-    else if k == 7 { t is DifferenceExtension } else if k == 8 { t is DifferenceIntension }
-    else if k == 9 { t is Product } else if k == 10 { t is ImageExtension } else { t is ImageIntension }
-}
-/// order in which parse_atom tries the prefixes (word, the empty prefix, is the fallback)
-pub open spec fn atom_try_order(f: &NarseseFormat<&str>) -> Seq<Seq<char>> {
-    seq![
-        f.atom.prefix_placeholder@, f.atom.prefix_variable_independent@, f.atom.prefix_variable_dependent@,
-        f.atom.prefix_variable_query@, f.atom.prefix_interval@, f.atom.prefix_operator@, f.atom.prefix_word@,
-    ]
-}
-pub open spec fn atom_kind(k: int, t: Term) -> bool {
-    if k == 0 { t is Placeholder } else if k == 1 { t is VariableIndependent } else if k == 2 { t is VariableDependent }
-    else if k == 3 { t is VariableQuery } else if k == 4 { t is Interval } else if k == 5 { t is Operator } else { t is Word }
 }
 pub open spec fn punct_try_order(f: &NarseseFormat<&str>) -> Seq<Seq<char>> {
     seq![f.sentence.punctuation_judgement@, f.sentence.punctuation_goal@, f.sentence.punctuation_question@, f.sentence.punctuation_quest@]
